@@ -202,11 +202,17 @@ def r3_dial_vs_name(ctx, R3):
     m = ctx.model
     HC = f"{CN}.HTTPConnection"
     nc = m.method(HC, "_new_conn")
-    rows = rows_of(ctx, nc, raising={})
+    # every attempt to dial counts, also the ones made after a first attempt failed (name resolution, timeout, refusal)
+    rows = list(rows_of(ctx, nc, raising={}))
+    for exc_ in ("socket.gaierror", "socket.timeout", "builtins.OSError"):
+        rows += rows_of(ctx, nc, raising={"create_connection": exc_})
     n = 0
     seen = set()
     for r in rows:
-        terms = [r.ret or ""] + [x for e in r.ev for x in e if isinstance(x, str)]
+        terms = [r.ret or ""] + [x for e in r.ev for x in e if isinstance(x, str)] + [k for k in r.st.ts.get("fault_args", ()) if isinstance(k, str)]
+        for e in r.ev:
+            if e[0] == "call" and isinstance(e[1], str) and e[1].endswith("create_connection"):
+                terms.append(T("create_connection", *[a for a in e[2:] if isinstance(a, str)]))
         for t in terms:
             for x in subterms(t):
                 op, a = destruct(x)
